@@ -152,7 +152,7 @@ Definition fpow (x y : f64) : option f64 :=
     end
   else if is_integer y then
     let k := to_Z y in
-    if (Z.abs k <=? 64) then
+    if (Z.abs k <=? 1100) then
       match x with
       | S754_finite s m e =>
         let sr := s && Z.odd k in
@@ -270,6 +270,13 @@ Definition of_decimal (s : bool) (d : Z) (X : Z) : f64 :=
   | _ => S754_zero s
   end.
 
+(** [of_decimal] with the decimal exponent clamped to the range where it can matter:
+    beyond it the result is already zero or infinity; keeps evaluation cheap on texts such
+    as 1e999999999 *)
+Definition clampZ (lo hi z : Z) : Z := Z.max lo (Z.min hi z).
+Definition of_decimal_c (s : bool) (d : Z) (X : Z) : f64 :=
+  of_decimal s d (clampZ (-400 - ndigits d) 400 X).
+
 (** shortest digit string (by increasing length, correctly rounded at that length) that
     parses back to the same double *)
 Fixpoint shortest_fuel (fuel : nat) (k : Z) (m : positive) (e : Z) : Z * Z :=
@@ -370,11 +377,11 @@ Definition str2num (s : bytes) : option f64 :=
       | _ => None
       end
     else match parse_decimal u with
-         | Some (d, X) => Some (of_decimal neg d X)
+         | Some (d, X) => Some (of_decimal_c neg d X)
          | None => None
          end
   | _ => match parse_decimal u with
-         | Some (d, X) => Some (of_decimal neg d X)
+         | Some (d, X) => Some (of_decimal_c neg d X)
          | None => None
          end
   end.
